@@ -180,10 +180,18 @@ class BLOB(Element):
     set_message_class = one_parts.OneBLOB
     allowed_value_types = (values.BLOB,) + Element.allowed_value_types
 
+    def to_def_message(self):
+        # BLOB payloads are never part of a definition
+        return self.def_message_class(
+            name=self._definition.name,
+            value=None,
+            label=self._definition.label,
+        )
+
     def to_set_message(self):
         if self.value is None:
             return self.set_message_class(
-                name=self._definition.name, value=None, format=None, size=None
+                name=self._definition.name, value=None, format="", size=0
             )
         return self.set_message_class(
             name=self._definition.name,
